@@ -13,7 +13,7 @@ EXPLANATION = ("static analysis (MIR abstract interpretation): each creation pre
                "the same key with only reserve amounts / status overridden and no permuting operation applied to the index-coupled "
                "vectors; POOLS.remove is never called; identifier prefixes and the LP denom derivation are constant-checked")
 ASSUMPTIONS = ["token-factory denom creation fee semantics and bank deltas are the chain's", "PoolFee::is_valid internals are trusted in the quick tier"]
-TECHNIQUE = "static analysis: guard cut-sets, provenance of saved PoolInfo fields (immutability), permutation taint on coupled vectors, constants"
+TECHNIQUE = "static analysis: guard cut-sets, provenance of saved PoolInfo fields (immutability), permutation taint on coupled vectors, constants, value-assumption cut (same-denom fee), guards recognised by the comparison they make"
 LEVEL_TEXT = ("Structural obligations over all paths: creation guards are must-pass-through for the creating save; later writes of a pool "
               "may only change reserve amounts and status and never permute/resize assets against asset_denoms/asset_decimals; a pool is "
               "never removed.")
